@@ -318,7 +318,12 @@ func (g *G) leaf(ty ts.Type, minLen int) ts.Expr {
 	}
 	switch ty {
 	case ts.TInt:
-		return ts.IntLit{V: g.intValue()}
+		v := g.intValue()
+		if v >= 0 && v < 4096 && g.chance("octal-spelling", 4) {
+			g.tag("octal-literal")
+			return ts.IntLit{V: v, Oct: true} // 010 is 8 in Go
+		}
+		return ts.IntLit{V: v}
 	case ts.TBool:
 		return ts.BoolLit{V: g.chance("boollit", 50)}
 	case ts.TString:
